@@ -48,7 +48,7 @@ def run(ctx):
     mpmath.mp.dps = 40
     orc = build_oracles()
     models = ["lennard_jones", "inverse_power_law", "harmonic_hertz"]
-    npts = ctx.n(7000, 30000)
+    npts = ctx.n(20000, 30000)
     fam = {}
     for i in range(npts):
         rng = ctx.rng()
